@@ -946,9 +946,9 @@ func runC09(args []string) {
 	rng := newPrng(9)
 	canon := map[int]map[string]string{}
 
-	maxExh := 8
+	maxExh := 10
 	if tier == "thorough" {
-		maxExh = 10
+		maxExh = 12
 	}
 	for n := 1; n <= maxExh; n++ {
 		c09exhaustive(n)
